@@ -107,6 +107,10 @@ THEOREMS = [
     "OllamaVerif.C13.blob_path_confined_anyroot",
     "OllamaVerif.C13.getBlobsPath_empty",
     "OllamaVerif.C13.blobs_mkdir_confined",
+    "OllamaVerif.C13.runesRoundTrip_ascii",
+    "OllamaVerif.C13.pathToName_roundtrip",
+    "OllamaVerif.C13.displayShortest_roundtrip",
+    "OllamaVerif.C13.displayShortest_case_witness",
     "OllamaVerif.Tie.C13.first_sets_match",
     "OllamaVerif.Tie.C13.rest_sets_match",
     "OllamaVerif.Tie.C13.length_limits_match",
